@@ -2,7 +2,7 @@
 
 def _walk(name, cfg, budget):
     return dict(kind="walk", name=name, module="Transmission", pkg="transmit", test="TestVerifC26Transmission",
-                harness=["transmit/c26_transmission_test.go"], cfg=cfg, budget=budget)
+                harness=["transmit/c26_transmission_test.go"], cfg=cfg, budget=budget, dump_workers=1)
 
 PROP = dict(
     level="model_checking",
@@ -11,7 +11,7 @@ PROP = dict(
     level_text="",
     level_note="",
     assumptions=[],
-    stages=[_walk("dest", {"quick": "MC_Transmission_dest.cfg", "thorough": "MC_Transmission_dest.cfg"}, {"quick": 20, "thorough": 200}),
-            _walk("retry", {"quick": "MC_Transmission_retry.cfg", "thorough": "MC_Transmission_retry.cfg"}, {"quick": 20, "thorough": 200}),
-            _walk("split", {"quick": "MC_Transmission_split.cfg", "thorough": "MC_Transmission_split.cfg"}, {"quick": 20, "thorough": 200})],
+    stages=[_walk("dest", {"quick": "MC_Transmission_dest_q.cfg", "thorough": "MC_Transmission_dest.cfg"}, {"quick": 20, "thorough": 200}),
+            _walk("retry", {"quick": "MC_Transmission_retry_q.cfg", "thorough": "MC_Transmission_retry.cfg"}, {"quick": 20, "thorough": 200}),
+            _walk("split", {"quick": "MC_Transmission_split_q.cfg", "thorough": "MC_Transmission_split.cfg"}, {"quick": 20, "thorough": 200})],
 )
